@@ -191,3 +191,7 @@ func (h *simpleHooks) Call(in *sym.Interp, fr *sym.Frame, site ssa.CallInstructi
 	}
 	return true, sym.Call(callee.Name(), rt, args...)
 }
+
+func constantInt64(k *types.Const) (int64, bool) {
+	return constant.Int64Val(constant.ToInt(k.Val()))
+}
